@@ -704,13 +704,28 @@ func readyDoneOnAllPaths(p *core.Prog, header *ssa.Function) bool {
 				doneClosures = append(doneClosures, a)
 			}
 		}
-		if len(doneClosures) == 0 {
+		// ... or methods/functions of the package that fn calls and that call Done (what the literal becomes after a
+		// "closure to method" clean-up)
+		doneSteps := map[*ssa.Function]bool{}
+		core.Instrs(fn, func(in ssa.Instruction) {
+			if call, ok := in.(*ssa.Call); ok {
+				if sc := call.Call.StaticCallee(); sc != nil && sc.Blocks != nil && sc != fn && strings.HasPrefix(core.InfoOf(&call.Call).Pkg, core.ModulePath) {
+					if len(core.CallsIn(sc, func(_ *ssa.Call, ci core.CallInfo) bool { return ci.Is("sync.WaitGroup.Done") })) > 0 {
+						doneSteps[sc] = true
+					}
+				}
+			}
+		})
+		if len(doneClosures) == 0 && len(doneSteps) == 0 {
 			continue
 		}
 		callsDone := func(in ssa.Instruction) bool {
 			call, ok := in.(*ssa.Call)
 			if !ok {
 				return false
+			}
+			if sc := call.Call.StaticCallee(); sc != nil && doneSteps[sc] {
+				return true
 			}
 			for _, o := range core.Origins(call.Call.Value) {
 				if mc, ok := o.(*ssa.MakeClosure); ok {
